@@ -4,7 +4,7 @@ HOOKS = {
     'guard': 'verif',
     'enable': 'go build/test -tags verif; the in-package harness files are injected with -overlay (nothing is written to /repo)',
     'baseline_off_cmd': 'cd /repo && go test -vet=off -count=1 ./...',
-    'source_commits': [],
+    'source_commits': ['d54ebd1'],
     'add_only': True,
 }
 
@@ -122,3 +122,24 @@ META['C16'] = dict(
     technique='property-based testing (rapid): HTTP request grammar + byte soups with generated framing against a well-formedness predicate, an authorisation rule and a POST-body == --bind parse differential',
     level_text='Exploration: tens of thousands (quick) to ~1M (thorough) requests delivered to the request handler in generated chunkings with early close; live-endpoint sessions at process level.',
     level_note='Handler level uses net.Pipe and a fake action channel / state handler; trusts the well-formedness predicate in the harness.')
+
+META['C08'] = dict(
+    engine='rapid-inpkg',
+    design_ref='DESIGN.md section 4, C08',
+    technique='stateful property-based testing (rapid): cache state machine and Matcher.Loop request histories (with hook-driven cancellation points) against a sequential cache-less filter; process-level sessions against fzf --filter',
+    level_text='Exploration: thousands of related-query sequences on a shared cache, thousands of push/Reset histories on the real matcher loop, live sessions at process level; differential against a fresh filter.',
+    level_note='Timing inside the Go scheduler is sampled; cancellation points are chosen through the verif hook; quiescence is polled with a generous cap.')
+
+META['C13'] = dict(
+    engine='rapid-inpkg',
+    design_ref='DESIGN.md section 4, C13',
+    technique='property-based concurrency stress (rapid) + bounded exhaustive enumeration of cancellation points through the verif hook; Go race detector as an additional monitor in the thorough tier',
+    level_text='Exploration with an exhaustively enumerated sub-domain (every cancellation point for lists of up to 6/12 chunks x 3 partition counts x 8 query pairs); loader/searcher interleavings are sampled.',
+    level_note='Interleavings inside the Go scheduler are sampled, not enumerated; the race detector only sees executed interleavings.')
+
+META['C19'] = dict(
+    engine='rapid-inpkg',
+    design_ref='DESIGN.md section 4, C19',
+    technique='property-based testing (rapid): generated directory-tree ASTs materialised on disk, walker output compared as multisets with a walk model over the AST',
+    level_text='Exploration: thousands of generated trees x all 12 walker option combinations x skip lists x root spellings.',
+    level_note='Trusts harness/oracle/walk.go; three under-specified listings are accepted either way (see assumptions in the evidence).')
